@@ -11,7 +11,7 @@
 (***************************************************************************)
 EXTENDS Integers, Sequences, FiniteSets, TLC
 CONSTANTS NThreads, MaxFrag
-MutClasses == {"valid", "len", "type", "nested", "trunc", "frag", "token", "stream"}
+MutClasses == {"valid", "len", "type", "unknown", "nested", "trunc", "frag", "token", "stream"}
 Outcomes == {"ok", "PANIC", "CRASH", "OVERALLOC", "SPIN"}
 VARIABLES store, queued, ev
 vars == <<store, queued, ev>>
